@@ -66,6 +66,16 @@ G3 == [name |-> "g3", params |-> <<"i64", "d">>, res |-> <<"i64", "d">>, regty |
                    InsIn("dadd", Reg(4), <<Reg(2), Reg(2)>>),
                    [op |-> "ret", s |-> <<Reg(1), Reg(4)>>]>>]
 
+(* g4 (i64 n, i64 v) -> i64 : variable-size alloca (forces bstart/bend when inlined), two returns *)
+G4 == [name |-> "g4", params |-> <<"i64", "i32">>, res |-> <<"i64">>, regty |-> <<"i", "i", "i", "i">>,
+       insns |-> <<InsIn("and", Reg(3), <<Reg(1), Imm(FromNat(24))>>), InsIn("add", Reg(3), <<Reg(3), Imm(FromNat(16))>>),
+                   [op |-> "alloca", d |-> Reg(4), s |-> <<Reg(3)>>],
+                   InsIn("mov", Mem("i64", 8, 4, 0, 1), <<Reg(2)>>),
+                   Br("blt", 7, <<Reg(2), Imm(Zero64)>>),
+                   [op |-> "ret", s |-> <<Mem("i64", 8, 4, 0, 1)>>],
+                   InsIn("neg", Reg(2), <<Mem("i64", 8, 4, 0, 1)>>),
+                   [op |-> "ret", s |-> <<Reg(2)>>]>>]
+
 (* ---------------- domains of template holes ------------------------------ *)
 SmallImms == {Zero64, One64, Ones64, FromNat(2), FromNat(3), FromNat(7), FromNat(255), FromNat(256), FromNat(65535),
               <<65535, 32767, 0, 0>>, <<0, 32768, 0, 0>>, <<0, 0, 1, 0>>, MinS64, MaxS64, <<21845, 21845, 21845, 21845>>}
@@ -90,7 +100,9 @@ Pfx(fmt) == fmt
 
 KindsInt == {"ibin", "iun", "shift", "div", "br2", "br1", "loop", "ovf", "switch", "callg1", "callg2", "ext", "alloca", "jmpi", "idx"}
 KindsFp == {"fbin", "fcmp", "fbr", "i2f", "f2i", "fmovm", "f2f", "callg3"}
-Kinds == IF Vocab = "int" THEN KindsInt ELSE KindsInt \cup KindsFp
+(* "link": the constructs MIR_link rewrites (calls to inline, allocas, jumps and branch chains, memory operands) *)
+KindsLink == {"callg1", "callg2", "callg3", "ext", "alloca", "br2", "br1", "loop", "switch", "ibin", "idx", "jmpi", "ovf", "calla"}
+Kinds == IF Vocab = "int" THEN KindsInt ELSE IF Vocab = "link" THEN KindsLink ELSE KindsInt \cup KindsFp \cup {"calla"}
 
 (* holes of each kind, in order; a hole name selects its domain below *)
 Holes(k) ==
@@ -117,6 +129,7 @@ Holes(k) ==
     [] k = "fmovm" -> <<"fmt", "fdst", "fsrc">>
     [] k = "f2f" -> <<"fmt", "fmt2", "fsrc">>
     [] k = "callg3" -> <<"ireg", "isrc">>
+    [] k = "calla" -> <<"ireg", "isrc", "isrc">>
 CurFmt == cur.vals[1]       \* for fp kinds the first hole is the format
 Dom(h) ==
   CASE h = "safebin" -> SafeBin [] h = "iun" -> IntUnary [] h = "idst" -> IDst [] h = "isrc" -> ISrc [] h = "isrcreg" -> ISrcReg
@@ -171,6 +184,7 @@ Render(k, v) ==
     [] k = "fmovm" -> <<InsIn(v[1] \o "mov", v[2], <<v[3]>>)>>
     [] k = "f2f" -> <<InsIn(v[1] \o "2" \o v[2], Reg(CHOOSE r \in FpRegsOf(v[2]) : \A q \in FpRegsOf(v[2]) : r <= q), <<v[3]>>)>>
     [] k = "callg3" -> <<[op |-> "call", callee |-> [k |-> "func", f |-> 4], res |-> <<v[1], Reg(12)>>, args |-> <<v[2], Reg(13)>>]>>
+    [] k = "calla" -> <<[op |-> "call", callee |-> [k |-> "func", f |-> 5], res |-> <<v[1]>>, args |-> <<v[2], v[3]>>]>>
 
 (* ---------------- inputs -------------------------------------------------- *)
 InGridI == {Zero64, One64, Ones64, FromNat(2), FromNat(100), MinS64, MaxS64, <<0, 32768, 0, 0>>, <<65535, 32767, 0, 0>>,
@@ -236,7 +250,7 @@ MainFunc ==
 Finalize ==
   /\ phase = "build" /\ slot = NSlots + 1 /\ cur.kind = ""
   /\ phase' = "run"
-  /\ prog' = [funcs |-> <<MainFunc, G1, G2, G3>>]
+  /\ prog' = [funcs |-> <<MainFunc, G1, G2, G3, G4>>]
   /\ mem' = <<[sz |-> BufSize, live |-> TRUE, cells |-> InitBuf]>>
   /\ frames' = <<[f |-> 1, pc |-> 1, regs |-> [r \in 1..Len(MainRegTy) |-> IF r = 1 THEN PtrV(1, 0) ELSE UndefV],
                   base |-> 1, ovf |-> NoOvf]>>
